@@ -503,7 +503,12 @@ def boundary_sample(ex, lines, n=60):
             extra.append((gen.app(rule, sdat), rule, sdat, to_json_text(rule), to_json_text(sdat)))
     vals += extra
     codec = Codec(R)
-    ev = codec.model_eval([(enc(r), enc(d)) for _, r, d, _, _ in vals])
+    # both boundaries hand the crate JSON *text*; what the crate then works on is what serde_json reads from that text (which, without its
+    # `float_roundtrip` feature, is not always the double the text was printed from: DESIGN §15.5) - the expectation is computed from that
+    prs = codec.parse_many([v[3] for v in vals]); pds = codec.parse_many([v[4] for v in vals])
+    keep = [i for i in range(len(vals)) if prs[i].startswith("ok ") and pds[i].startswith("ok ")]
+    vals = [vals[i] for i in keep]
+    ev = codec.model_eval([(prs[i][3:], pds[i][3:]) for i in keep])
     try:
         binary = jl.build_cli("dev"); pydir = jl.build_pyext()
     except jl.BuildError as e:
